@@ -26,7 +26,7 @@ REAL = ["bec2format.bf3file / bec2file / crypto registry", "register_crypto_plug
         "when the fault arm is active)"]
 STUBS = ["medium: SimFS", "RNG: SimRng", "cipher fault wrapper FaultyAES / abstract base class for 'missing'",
          "RefAES, RefDir (independent models)"]
-PROBES = ["content-multiple-of-16", "content-trailing-zero", "content-all-zero", "cipher-missing", "cipher-raised-at-k",
+PROBES = ["rewritten-under-second-key", "content-longer-than-4096", "content-multiple-of-16", "content-trailing-zero", "content-all-zero", "cipher-missing", "cipher-raised-at-k",
           "write-failed-no-file", "write-failed-file-exists", "rewrite-same-ciphertext", "bec2-framing", "config-component",
           "secrecy-needles-checked"]
 ASSUMPTIONS = ["encrypted content is defined up to its declared length; the reader returns the zero-padded plaintext"]
@@ -65,6 +65,8 @@ def gen(st, tier):
     for _ in range(nenc):
         c = G.component_spec(w, enc=True, max_len=200)
         n = w.choice([w.randint(1, 64), 16, 32, 48, 15, 17, 1])
+        if w.random() < 0.05:
+            n = w.choice([4095, 4096, 4097, 4112, 8191, 8193, w.randint(4000, 9000)])
         r = w.random()
         if r < 0.15:
             c["blob"] = {"len": n, "fill": "zero", "tail0": 0, "s": 0}
@@ -77,6 +79,7 @@ def gen(st, tier):
     spec["obj"]["components"] = comps
     if w.random() < 0.6:
         spec["obj"]["config"] = G.config_spec(w)
+    spec["rekey"] = G.session_key_spec(w, allow_default=(kind == "bf3")) if w.random() < 0.5 else None
     spec["cipher"] = f.choice(["real", "real", "real", "missing", "raise", "raise", "raise"])
     spec["fail_frac"] = f.random()
     return spec
@@ -205,6 +208,8 @@ def run(case):
             out.nontrivial = True
             if len(content) % 16 == 0:
                 out.probes["content-multiple-of-16"] += 1
+            if len(content) > 4096:
+                out.probes["content-longer-than-4096"] += 1
             if content.endswith(b"\0"):
                 out.probes["content-trailing-zero"] += 1
             if not any(content):
@@ -258,6 +263,34 @@ def run(case):
             else:
                 out.fail("C06.rewrite-differs", "ciphertext", "component %d: re-serialising the read-back object "
                          "stores different ciphertext (%d vs %d bytes)" % (i, len(s2), len(s1)))
+        # ---- the same object written again under another session key (a package issued twice) ----
+        if case.get("rekey") and bytes.fromhex(case["rekey"]) != w.key:
+            key2 = bytes.fromhex(case["rekey"])
+            out.probes["rewritten-under-second-key"] += 1
+            name2 = "second-" + name
+            try:
+                if kind == "bf3":
+                    w.obj.write_file(name2, key2)
+                else:
+                    env.install_rng(w.rng)
+                    bec2 = env.bec2file.Bec2File(w.obj.bf3file, list(w.obj.auth_blocks.values()), key2)
+                    bec2.write_file(name2, w.wenc)
+            except Exception as e:
+                out.fail("C06.rekey-write-raises", exc_site(e), "writing the same object under a second key raised "
+                         "%s: %s" % (type(e).__name__, e))
+                return out
+            head2, binary2 = files.binary_of(fs.files[name2])
+            r2_, i2_ = refdir.walk(binary2)
+            for i in enc_idx:
+                m = w.model["components"][i]
+                e = i2_["entries"][i]
+                stored = binary2[e["adr"]:e["adr"] + e["total"]]
+                if stored != refaes.cbc_enc(key2, bytes(16), refaes.zpad(m["blob"])):
+                    under_old = stored == refaes.cbc_enc(w.key, bytes(16), refaes.zpad(m["blob"]))
+                    out.fail("C06.stored-not-ciphertext", "second-key" + ("-old-key-ciphertext" if under_old else ""),
+                             "component %d of the file written under the second session key is not AES-CBC of the "
+                             "content under that key%s" % (i, " (it is the ciphertext made under the first key)"
+                                                           if under_old else ""))
         out.ev("ok", kind, mode, len(enc_idx))
     finally:
         env.restore_registry()
